@@ -55,7 +55,14 @@ func (c *Ctx) resolveCall(call ssa.CallInstruction) calleeInfo {
 		if c.moduleIface(recvT) {
 			iface := recvT.Underlying().(*types.Interface)
 			var fns []*ssa.Function
+			loggerI := c.logIface("Logger")
+			isLogger := loggerI != nil && types.Implements(recvT, loggerI)
 			for _, nt := range c.implementers(iface) {
+				// closed world of the configuration: a slot typed Appender holds a registered appender
+				// plugin, never a logger (loggers also satisfy Appender structurally)
+				if !isLogger && loggerI != nil && iface.NumMethods() < loggerI.NumMethods() && types.Implements(types.NewPointer(nt), loggerI) && types.Identical(iface, c.logIface("Appender")) {
+					continue
+				}
 				if m := c.method(nt, com.Method.Name()); m != nil {
 					fns = append(fns, m)
 				}
